@@ -106,13 +106,17 @@ KINDS = {
                   bad_items=[5], nested_item="Keyed"),
     "links": dict(name="links", ann="KeyedList[Keyed, str]",
                   conf=[["KeyedList", []], ["KeyedList", [["Keyed", {"key": "a"}]]],
-                        ["list", [["Keyed", {"key": "a", "n": 1}], ["Keyed", {"key": "b"}]]]],
+                        ["list", [["Keyed", {"key": "a", "n": 1}], ["Keyed", {"key": "b"}]]],
+                        ["KeyedList", [["Keyed", {"key": "a", "n": 1}], ["Keyed", {"key": "b"}]]]],
+                  small_conf=[2, 3],
                   bad=[["list", [5]], ["RawKeyedList", [1, 2]]], mut="KeyedList[Keyed, str]([Keyed('d')])", mut_spec=["KeyedList", [["Keyed", {"key": "d"}]]],
                   item="link", items=[["Keyed", {"key": "a"}], ["Keyed", {"key": "b", "n": 1}], "c"], bad_items=[5],
                   nested_item="Keyed"),
     "marks": dict(name="marks", ann="KeyedSet[Keyed, str]",
                   conf=[["KeyedSet", []], ["KeyedSet", [["Keyed", {"key": "a"}]]],
-                        ["list", [["Keyed", {"key": "a", "n": 1}], ["Keyed", {"key": "b"}]]]],
+                        ["list", [["Keyed", {"key": "a", "n": 1}], ["Keyed", {"key": "b"}]]],
+                        ["KeyedSet", [["Keyed", {"key": "a", "n": 1}], ["Keyed", {"key": "b"}]]]],
+                  small_conf=[2, 3],
                   bad=[["list", [5]], ["RawKeyedSet", [1, 2]]], mut="KeyedSet[Keyed, str]([Keyed('d')])", mut_spec=["KeyedSet", [["Keyed", {"key": "d"}]]],
                   item="mark", items=[["Keyed", {"key": "a"}], ["Keyed", {"key": "b", "n": 1}], "c"], bad_items=[5],
                   nested_item="Keyed"),
@@ -360,8 +364,22 @@ ITEM_PREPARERS = {
     "scores": _prep_scalar(7, 8, -1, "bad"),
     "tags": _prep_scalar(7, 8, -1, "bad"),
     "labels": _prep_scalar("a", "A", "zz", 5),
-    "kids": lambda v: v, "pairs": lambda v: v, "units": lambda v: v, "parts": lambda v: v, "links": lambda v: v, "marks": lambda v: v,
+    "kids": lambda v: _prep_nested(v), "pairs": lambda v: _prep_nested(v), "units": lambda v: _prep_nested(v),
+    "parts": lambda v: _prep_nested(v), "links": lambda v: _prep_nested(v), "marks": lambda v: _prep_nested(v),
 }
+
+
+def _prep_nested(v):
+    """item preparer for spec-class items: never edits the incoming item; the designated item (x == 1 / n == 1)
+    is REPLACED by a new object (x == 11 / n == 11), everything else passes through"""
+    cls = type(v)
+    if not hasattr(cls, "__spec_class__"):
+        return v
+    if getattr(cls.__spec_class__, "key", None) and getattr(v, "n", None) == 1:
+        return cls(v.key, n=11, zs=list(v.zs))
+    if not getattr(cls.__spec_class__, "key", None) and getattr(v, "x", None) == 1:
+        return cls(x=11, ys=list(v.ys))
+    return v
 
 
 class Env:
@@ -481,7 +499,13 @@ def t_same(v):
     return copy.deepcopy(v)
 
 
-TRANSFORMS = {"inc": t_inc, "bad": t_bad, "missing": t_missing, "raise": t_raise, "same": t_same}
+def t_ident(v):
+    """hands back the very object it was given (a transform need not build a new value)"""
+    CB.hit("transform")
+    return v
+
+
+TRANSFORMS = {"inc": t_inc, "bad": t_bad, "missing": t_missing, "raise": t_raise, "same": t_same, "ident": t_ident}
 
 
 # ------------------------------------------------------------------------------------------------
@@ -549,6 +573,9 @@ def quick_family():
         single("nums", "mut", item_preparers=["nums"]),
         single("scores", "mut", item_preparers=["scores"]),
         single("tags", "mut", item_preparers=["tags"]),
+        single("links", "none", item_preparers=["links"]),
+        single("marks", "none", item_preparers=["marks"]),
+        single("kids", "mut", item_preparers=["kids"]),
         single("nums", "mut", do_not_copy=["nums"]),
         single("leaf", "mut", do_not_copy=["leaf"]),
         single("nums", "mut", bootstrap=True),
